@@ -11,31 +11,65 @@ that evaluates the property itself on the real code):
                   independent Python reference pretty-printer
   suite_wrap      emit_wrapped_text vs Wrap.wrap; oracle = words preserved in order, prefixes in place
   suite_manifest_api   random write/copy sequences on a real backend, real mode and manifest mode, vs Manifest.run
-  suite_manifest_backends   every built-in backend x specs x option sets: manifest run vs real run (oracle only)
+  suite_manifest_backends   every built-in backend x specs (hand-written families under harness/specs/c18 + generated
+                  ones) x option sets: manifest run vs real run (oracle only)
+  suite_manifest_cli   the same through stone.cli.main: --output-manifest / --expected-output-manifest / --clean-build /
+                  `--`, a toy backend running random write / copy scripts and the built-in backends (oracle only)
+  suite_filter_none    CodeBackend.filter_out_none_valued_keys against its docstring (oracle only)
 """
+import atexit
 import contextlib
 import importlib
+import io
 import itertools
 import json
 import os
 import shutil
 import signal
+import sys
+import tempfile
 import textwrap
 import time
 
 from harness import core
 
 RULE = ('paths: all sequences of <= 4 segments over {a, ., .., d/e, unicode, empty, ..x, out}, with and without trailing '
-        'slash, plus absolute forms, x 7 (cwd, root) combinations (exhaustive); emit scripts: random trees of '
+        'slash, plus absolute forms, x 7 (cwd, root) combinations (exhaustive), plus an output folder that does not exist '
+        'yet x 17 file names x 3 writers; emit scripts: random trees of '
         'emit/emit_raw/emit_wrapped_text/placeholders/indent/block/generate_multiline_list over an alphabet biased to braces, '
         'format-like sequences and unicode, ~10% deliberately ill-formed; wrap: random unicode texts x widths -2..90 x '
-        'prefixes; manifest: random write/copy sequences, and every built-in backend x 3 specs x option sets. '
+        'prefixes x the two wrapping flags; filter_out_none_valued_keys: random dicts biased to falsy values; manifest: '
+        'random write/copy sequences on the API and through stone.cli.main (toy backend; --output-manifest, '
+        '--expected-output-manifest with exact / permuted / missing / extra / ill-typed lists, --clean-build over stale '
+        'files, output path that is a file or lies under one, stone\'s own -w/-b/-a/-f in front), and every built-in '
+        'backend x 4 hand-written spec families x option sets (incl. client arguments by style and auth types, which '
+        'change the file set; arguments the backend\'s parser rejects) + generated specs. '
         'A case is non-trivial when it has a parent/absolute segment, a brace or placeholder, more than one line, '
         'or writes at least one file')
 
 ALPHABET = ['{', '}', '{{', '}}', '{}', '{0}', '{x}', '{x', 'x}', 'a', 'b', ' ', '\n', 'é', '日本', '%s', '{!r}', '{:>4}', '\\', '"']
 
 EMIT_ERRORS = (AssertionError, KeyError, IndexError, ValueError)
+
+
+_own_scratch = []
+
+
+def _scratch(prefix):
+    """Scratch tree for the file-system suites: on tmpfs when there is one (creating / removing a directory costs
+    ~20x less there than on the root file system, and the path suite does it some ten thousand times)."""
+    base = '/dev/shm'
+    if os.path.isdir(base) and os.access(base, os.W_OK | os.X_OK):
+        d = tempfile.mkdtemp(prefix=prefix, dir=base)
+        _own_scratch.append(d)
+        return d
+    return core.scratch(prefix)
+
+
+@atexit.register
+def _cleanup_own_scratch():
+    for d in _own_scratch:
+        shutil.rmtree(d, ignore_errors=True)
 
 
 class Hang(Exception):
@@ -186,7 +220,7 @@ class Sandbox:
     relative path of depth <= 4 (nor a mutated, no longer refusing implementation) can leave the scratch tree."""
 
     def __init__(self):
-        self.top = os.path.realpath(core.scratch('stone-verif-c18-'))
+        self.top = os.path.realpath(_scratch('stone-verif-c18-'))
         self.base = os.path.join(self.top, 'l1', 'l2', 'l3', 'l4')
         self.w = os.path.join(self.base, 'w')
         self.out = os.path.join(self.w, OUT_NAME)
@@ -380,6 +414,56 @@ def suite_path(ck):
                                     [outcome, want_file], [r.get('accepted'), r.get('rel')])
                     else:
                         ck.agree('be.path.' + wname)
+        # ---- an output folder that does not exist yet (oracle only; SwiftBaseBackend creates it itself before it
+        #      validates the file name, the other two create it together with the file's directory)
+        fresh = os.path.join(sb.w, 'fresh')
+        fresh_paths = ['A.swift', 'sub/A.swift', 'é/日.swift', '../E.swift', '../fresh2/E.swift', '../fresh/A.swift',
+                       '../../E.swift', 'a/../../E.swift', 'a/../A.swift', '.', '', '..', '../', sb.base + '/abs.swift',
+                       fresh + '/in.swift', '../out/E.swift', 'sub/../../out/E.swift']
+        os.chdir(sb.w)
+        for wname, cls in (('swift_writer', Swift), ('output_to_relative_path', Spaces), ('copy_to_path', Spaces)):
+            for root in ('fresh', fresh, './fresh/'):
+                for p in fresh_paths:
+                    backend = cls(root, [])
+                    outcome = 'written'
+                    try:
+                        if wname == 'output_to_relative_path':
+                            with backend.output_to_relative_path(p):
+                                backend.emit('x = {1} é')
+                        elif wname == 'swift_writer':
+                            backend._write_output_in_target_folder('x = {1} é\n', p)
+                        else:
+                            backend.copy_to_path(sb.src, os.path.join(root, p))
+                    except AssertionError:
+                        outcome = 'refused'
+                    except OSError:
+                        outcome = 'ioerror'
+                    except (KeyError, IndexError, ValueError):
+                        outcome = 'format-error'
+                    new_files, new_dirs = sb.diff()
+                    sb.reset(new_files, new_dirs)
+                    ck.case(('fresh-root', wname, root == fresh, p), True)
+                    ck.hist('be.path.fresh_root.%s' % wname, outcome)
+                    inside = lambda x: x == fresh or x.startswith(fresh + os.sep)   # noqa: E731
+                    case = {'suite': 'path', 'writer': wname, 'combo': 'fresh-root', 'cwd': 'w',
+                            'root': root.replace(sb.top, '<scratch>'), 'path': p.replace(sb.top, '<scratch>'),
+                            'outcome': outcome, 'out_name': 'fresh',
+                            'new_files': [f.replace(sb.top, '<scratch>') for f in new_files],
+                            'new_dirs': [d.replace(sb.top, '<scratch>') for d in new_dirs]}
+                    if [f for f in new_files if not inside(f)]:
+                        ck.failing_input('%s wrote a file outside the output folder' % wname,
+                                         {'site': wname, 'kind': 'escape'}, case)
+                    elif [d for d in new_dirs if not inside(d)]:
+                        ck.failing_input('%s created a directory outside the output folder' % wname,
+                                         {'site': wname, 'kind': 'dir-outside'}, case)
+                    # a refusal may leave the (empty) output folder itself behind, nothing else
+                    if outcome == 'refused' and (new_files or [d for d in new_dirs if d != fresh]):
+                        ck.failing_input('%s refused the request after writing' % wname,
+                                         {'site': wname, 'kind': 'refused-after-write'}, case)
+                    if outcome == 'format-error':
+                        ck.failing_input('text written through %s does not reach the file byte for byte' % wname,
+                                         {'site': wname, 'kind': 'content'}, case)
+        os.chdir(home)
         # ---- observation outside the quantified domain (7 segments): recorded, not judged
         os.chdir(sb.w)
         b = Spaces(OUT_NAME, [])
@@ -734,8 +818,11 @@ def suite_emit(ck):
 # ======================================================================================= be.wrap
 
 def wrap_oracle(ck, case, out):
-    """words preserved in order, every line behind its prefix"""
+    """words preserved in order, every line behind its prefix. With break_long_words / break_on_hyphens a word may
+    be cut, so there the characters outside white space are compared; without them the words themselves, and a
+    flag that is off must stay off (no word is cut / no word is cut at a hyphen)."""
     text, ind, prefix, ini, sub, width = (case[k] for k in ('text', 'indent', 'prefix', 'ini', 'sub', 'width'))
+    blw, boh = bool(case.get('blw')), bool(case.get('boh'))
     p0 = ind + prefix + ini
     p1 = ind + prefix + sub
     body = out[:-1] if out.endswith('\n') else out
@@ -748,11 +835,35 @@ def wrap_oracle(ck, case, out):
             ok = False
             break
         words.extend(ln[len(p):].split())
-    if ok and words != text.split():
+    kind = 'words'
+    if ok and not (blw or boh) and words != text.split():
         ok = False
+    if ok and (blw or boh):
+        if ''.join(words) != ''.join(text.split()):
+            ok = False
+        else:
+            # every piece is a word or a cut of one; a cut needs a flag that allows it at that place
+            pieces, src = list(words), text.split()
+            j = 0
+            for w in src:
+                taken = ''
+                first = True
+                while taken != w and j < len(pieces) and w.startswith(taken + pieces[j]):
+                    if not first and not blw and not (boh and taken.endswith('-')):
+                        ok, kind = False, 'flag-ignored'
+                    taken += pieces[j]
+                    j += 1
+                    first = False
+                if taken != w:
+                    ok = False
+                    break
+            if ok and blw and width > 0:
+                room = [width - len(p0)] + [width - len(p1)] * max(len(lines) - 1, 0)
+                if min(room) >= 1 and any(len(ln) > width for ln in lines):
+                    ok, kind = False, 'flag-ignored'        # break_long_words: no line is longer than the width
     if not ok:
-        ck.failing_input('wrapped text loses / reorders words or drops a prefix',
-                         {'site': 'emit_wrapped_text', 'kind': 'words'}, dict(case, suite='wrap', got=out))
+        ck.failing_input('wrapped text loses / reorders words, drops a prefix or ignores a wrapping flag',
+                         {'site': 'emit_wrapped_text', 'kind': kind}, dict(case, suite='wrap', got=out))
     return ok
 
 
@@ -769,14 +880,29 @@ def suite_wrap(ck):
                       'ini': ck.rng.choice(['', '', '- ', '/** ', 'é ']),
                       'sub': ck.rng.choice(['', '', '  ', ' * ']),
                       'width': ck.rng.choice([80, 80, 60, 30, 20, 12, 8, 5, 3, 1, 90, 0, -2])})
+        # the two wrapping flags (default False, the only value the built-in backends pass and the model covers):
+        # a quarter of the cases sets one or both; these are judged by the oracle and textwrap.fill alone
+        r = ck.rng.random()
+        cases[-1]['blw'] = r < 0.17
+        cases[-1]['boh'] = 0.09 <= r < 0.25
+        c = cases[-1]
+        if c['blw'] and c['width'] - len(c['indent'] + c['prefix']) - max(len(c['ini']), len(c['sub'])) < 1:
+            # textwrap itself never returns when it may cut words and a prefix leaves no room at all
+            # (CPython: _handle_long_word takes chunk[:0] for ever) - not a behaviour of the code under test
+            c['blw'] = False
     reals = []
     for c in cases:
         b = (Tabs if c['tabs'] else Spaces)('/nonexistent', [])
         b.cur_indent = c['depth']
         try:
             with time_limit(2.0):
-                b.emit_wrapped_text(c['text'], prefix=c['prefix'], initial_prefix=c['ini'], subsequent_prefix=c['sub'],
-                                    width=c['width'])
+                if c['blw'] or c['boh']:
+                    b.emit_wrapped_text(c['text'], prefix=c['prefix'], initial_prefix=c['ini'],
+                                        subsequent_prefix=c['sub'], width=c['width'], break_long_words=c['blw'],
+                                        break_on_hyphens=c['boh'])
+                else:
+                    b.emit_wrapped_text(c['text'], prefix=c['prefix'], initial_prefix=c['ini'],
+                                        subsequent_prefix=c['sub'], width=c['width'])
                 reals.append(b.output_buffer_to_string())
         except ValueError:
             reals.append(None)
@@ -795,22 +921,88 @@ def suite_wrap(ck):
         ck.case(('wrap', json.dumps(c, sort_keys=True)), nlines > 1)
         ck.hist('be.wrap.lines', min(nlines, 12))
         ck.hist('be.wrap.width', c['width'])
-        model = (r.get('out') + '\n') if r.get('ok') else None
-        if model != real:
-            ck.disagree('be.wrap', c, real, model)
+        ck.hist('be.wrap.flags', 'long_words=%s hyphens=%s' % (c['blw'], c['boh']))
+        if c['blw'] or c['boh']:
+            # outside the model (it has the defaults built in): the library call with the same flags is the reference
+            try:
+                want = textwrap.fill(c['text'], width=c['width'], initial_indent=c['indent'] + c['prefix'] + c['ini'],
+                                     subsequent_indent=c['indent'] + c['prefix'] + c['sub'],
+                                     break_long_words=c['blw'], break_on_hyphens=c['boh']) + '\n'
+            except ValueError:
+                want = None
+            if real != HANG and real != want:
+                ck.failing_input('emit_wrapped_text does not pass its wrapping flags on',
+                                 {'site': 'emit_wrapped_text', 'kind': 'flag-ignored'},
+                                 dict(c, suite='wrap', got=real, expected=want))
+            ck.agree('be.wrap.flags')
         else:
-            ck.agree('be.wrap')
+            model = (r.get('out') + '\n') if r.get('ok') else None
+            if model != real:
+                ck.disagree('be.wrap', c, real, model)
+            else:
+                ck.agree('be.wrap')
         if real == HANG:
             ck.failing_input('emit_wrapped_text does not terminate', {'site': 'emit_wrapped_text', 'kind': 'hang'},
                              dict(c, suite='wrap'))
         elif real is not None:
             wrap_oracle(ck, c, real)
-            if r.get('ok') and r.get('words') != c['text'].split():
+            if not (c['blw'] or c['boh']) and r.get('ok') and r.get('words') != c['text'].split():
                 ck.disagree('be.wrap.words', c, c['text'].split(), r.get('words'))
         elif c['width'] > 0:
             ck.failing_input('emit_wrapped_text rejects a positive width', {'site': 'emit_wrapped_text', 'kind': 'rejects'},
                              dict(c, suite='wrap'))
     ck.sample({'wrap': cases[0], 'text': reals[0]})
+
+
+# ======================================================================================= be.filter_none
+
+class _Opaque:
+    """a value that is neither None nor comparable to anything"""
+    def __eq__(self, other):
+        return False
+
+    def __hash__(self):
+        return 7
+
+    def __bool__(self):
+        return False
+
+
+def suite_filter_none(ck):
+    """CodeBackend.filter_out_none_valued_keys (oracle only, from its docstring): a NEW dict with exactly the
+    keys whose value is not None, each bound to the very same value; the argument is left alone. Values are
+    biased to the falsy ones (0, '', False, [], {}, 0.0) that a truthiness test would lose."""
+    Spaces, _Tabs, _Swift = _backend_classes()
+    b = Spaces('/nonexistent', [])
+    n = ck.scale(600, 6000)
+    opaque = _Opaque()
+    values = [None, None, None, 0, '', False, [], {}, 0.0, (), 'x', 1, True, [None], {'k': None}, 'None', opaque,
+              float('nan'), b'', -1]
+    keys = ['a', 'b', 'min_value', 'max_value', 'pattern', '', 0, 1, None, ('t', 1), 'é', False, 2.5]
+    for _i in range(n):
+        d = {}
+        for _j in range(ck.rng.randint(0, 6)):
+            d[ck.rng.choice(keys)] = ck.rng.choice(values)
+        before = list(d.items())
+        try:
+            got = b.filter_out_none_valued_keys(d)
+            err = None
+        except Exception as e:                              # noqa: the real code is under test
+            got, err = None, type(e).__name__
+        ck.case(('filter_none', repr(before)), any(v is None for _k, v in before))
+        ck.hist('be.filter_none.size', len(before))
+        want = [(k, v) for k, v in before if v is not None]
+        ok = (err is None and isinstance(got, dict) and (got is not d)
+              and len(got) == len(want) and all(k in got and got[k] is v for k, v in want)
+              and len(d) == len(before) and all(k in d and d[k] is v for k, v in before))
+        if ok:
+            ck.agree('be.filter_none')
+        else:
+            ck.failing_input('filter_out_none_valued_keys does not return a new dict with exactly the non-None entries',
+                             {'site': 'filter_out_none_valued_keys', 'kind': 'entries'},
+                             {'suite': 'filter_none', 'items': [[repr(k), repr(v)] for k, v in before],
+                              'got': None if got is None else [[repr(k), repr(v)] for k, v in got.items()],
+                              'same_object': got is d, 'error': err})
 
 
 # ======================================================================================= manifest: API level
@@ -983,6 +1175,51 @@ BACKEND_RUNS = [
     ('obj_c_client', SW_ARGS, False, False),
 ]
 
+# Option sets that change WHICH files the client backends write (realistic values, as an SDK build passes them):
+# client-side route arguments by style (-y: routes of those styles make swift_client add <Class>RequestBox.swift and
+# [AppAuth]ReconnectionHelpers.swift), the auth type (-w: obj_c_client writes Routes/<NS><Auth>AuthRoutes.{h,m} only for
+# namespaces with a route of that auth type, swift_client renames / drops <NS>[AppAuth]Routes.swift).
+SW_CLIENT_ARGS = {
+    'upload': [['upload', [['input', '.data(input)', 'Data', 'The file to upload, as an Data object.']]],
+               ['upload', [['input', '.file(input)', 'URL', 'The file to upload, as an URL object.']]]],
+    'download': [['download_file', [['overwrite', 'overwrite', 'Bool = false', 'Overwrite the destination.'],
+                                    ['destination', 'destination', 'URL', 'Where to store the download.']]],
+                 ['download_memory', []]],
+}
+SW_STYLE_TO_REQUEST = {'rpc': 'RpcRequest', 'upload': 'UploadRequest', 'download_file': 'DownloadRequestFile',
+                       'download_memory': 'DownloadRequestMemory'}
+OC_CLIENT_ARGS = {
+    'upload': [['upload', ['Data', [['inputData', 'inputData', 'NSData *', 'The file to upload.']]]],
+               ['upload', ['Url', [['inputUrl', 'inputUrl', 'NSString *', 'The file to upload.']]]]],
+    'download': [['download_url', ['Url', [['overwrite', 'overwrite', 'BOOL', 'Overwrite.'],
+                                           ['outputUrl', 'outputUrl', 'NSURL *', 'Destination.']]]],
+                 ['download_data', ['Data', []]]],
+}
+OC_STYLE_TO_REQUEST = {'rpc': 'DBRpcTask', 'upload': 'DBUploadTask', 'download_url': 'DBDownloadUrlTask',
+                       'download_data': 'DBDownloadDataTask'}
+SW_FULL = ['-m', 'Mod', '-c', 'Client', '-t', 'Transport', '-y', json.dumps(SW_CLIENT_ARGS), '-z',
+           json.dumps(SW_STYLE_TO_REQUEST)]
+OC_FULL = ['-m', 'Mod', '-c', 'Client', '-t', 'Transport', '-y', json.dumps(OC_CLIENT_ARGS), '-z',
+           json.dumps(OC_STYLE_TO_REQUEST)]
+
+# run on the specs that have upload / download routes and routes of several auth types (RICH_SPECS) and on generated specs
+BACKEND_RUNS_RICH = [
+    ('swift_client', SW_FULL, False, False),
+    ('swift_client', SW_FULL + ['-w', 'app'], False, False),
+    ('swift_client', SW_FULL + ['--objc'], False, False),
+    ('swift_client', SW_FULL + ['--objc', '-w', 'app'], False, False),
+    ('obj_c_client', OC_FULL + ['-w', 'user'], False, False),
+    ('obj_c_client', OC_FULL + ['-w', 'team'], False, False),
+    ('obj_c_client', OC_FULL + ['-w', 'app'], False, False),
+    ('obj_c_client', ['-m', '../../Mod'] + OC_FULL[2:] + ['-w', 'user'], False, True),
+    ('obj_c_types', ['-e'], False, False),
+    ('swift_types', ['-r', 'route_{ns}_{route}'], False, False),
+    # arguments the backend's own parser rejects: both modes stop there, nothing is written
+    ('js_client', [], False, False),
+    ('python_types', ['--no-such-option', 'x'], False, False),
+]
+RICH_SPECS = ('basic', 'reserved')
+
 
 def load_specs():
     cfg = open(os.path.join(SPEC_DIR, 'stone_cfg.stone'), encoding='utf-8').read()
@@ -1037,23 +1274,32 @@ def run_backend_once(sb_top, name, args, specs, template, manifest, via_cli_help
     os.chdir(proj)
     status = 'ok'
     detail = ''
+    not_manifest = None
+    sink = io.StringIO()            # argparse usage texts and the "Note: ..." of Backend.__init__
     try:
         api = specs_to_ir(specs)
         mod = importlib.import_module('stone.backends.' + name)
-        c = Compiler(api, mod, list(args), 'out', output_manifest=manifest)
-        try:
-            with time_limit(60.0):
-                c.build()
-        except Hang:
-            status, detail = 'hang', 'Hang: no result within 60 s'
-        except BackendException as e:
-            last = e.traceback.strip().splitlines()[-1]
-            status = 'refused' if 'attempted to write outside its output root' in last else 'backend-exception'
-            detail = last[:200]
+        with contextlib.redirect_stdout(sink), contextlib.redirect_stderr(sink):
+            c = Compiler(api, mod, list(args), 'out', output_manifest=manifest)
+            try:
+                with time_limit(60.0):
+                    c.build()
+            except Hang:
+                status, detail = 'hang', 'Hang: no result within 60 s'
+            except BackendException as e:
+                last = e.traceback.strip().splitlines()[-1]
+                if 'attempted to write outside its output root' in last:
+                    status = 'refused'
+                elif last.startswith('SystemExit'):
+                    status = 'usage'
+                else:
+                    status = 'backend-exception'
+                detail = last[:200]
         man = c.output_manifest() if manifest else None
+        not_manifest = None if manifest else c.output_manifest()
         actual = stone_cli._actual_outputs('out')
     except SystemExit as e:
-        status, man, actual, detail = 'usage', None, [], str(e)
+        status, man, actual, detail = 'usage', None, [], 'SystemExit: %s' % (e,)
     finally:
         os.chdir(home)
     after_files = _walk_files(sb_top)
@@ -1066,7 +1312,8 @@ def run_backend_once(sb_top, name, args, specs, template, manifest, via_cli_help
             'outside': [p.replace(sb_top, '<scratch>') for p in outside],
             'new_dirs': [d.replace(sb_top, '<scratch>') for d in new_dirs],
             'outside_dirs': [d.replace(sb_top, '<scratch>') for d in new_dirs if not (d == out or d.startswith(out + os.sep))],
-            'actual_outputs': sorted(a for a in actual if not (template and a == 't.template'))}
+            'actual_outputs': sorted(a for a in actual if not (template and a == 't.template')),
+            'manifest_of_real_run': not_manifest}
 
 
 def backend_oracle(ck, case, real, man):
@@ -1108,15 +1355,64 @@ def backend_oracle(ck, case, real, man):
     return okay
 
 
+def gen_backend_specs(ck, n):
+    """n generated multi-namespace specs (harness/specgen.py, presets `routes` / `default`): [(name, [(path, text)])].
+    Their route attributes are whatever the generator invents, so the Swift / Objective-C client backends, which
+    insist on `auth` / `style`, mostly stop with the same exception in both modes (counted, not judged)."""
+    from harness import specgen
+    out = []
+    for i in range(n):
+        preset = 'routes' if i % 2 == 0 else 'default'
+        try:
+            model = specgen.gen_model(ck.rng, preset)
+            files = [(os.path.basename(path), text) for path, text in specgen.render(model, None)]
+        except Exception as e:                              # noqa: generator trouble is not a finding
+            ck.note('spec generator failed (%s): %s' % (preset, str(e)[:120]))
+            continue
+        out.append(('gen%d-%s' % (i, preset), files))
+    return out
+
+
+def _first_per_backend(rows):
+    seen, out = set(), []
+    for row in rows:
+        if row[0] not in seen and not row[3]:
+            seen.add(row[0])
+            out.append(row)
+    return out
+
+
+def backend_plan(ck):
+    """[(spec name, spec files, generated?, rows)]: the hand-written spec families x the whole option grid (the
+    file-set changing client options on the specs that have upload / download routes and several auth types), then
+    generated specs x one ordinary option set per backend + the client option sets."""
+    plan = []
+    for sname, spec in load_specs():
+        rows = list(BACKEND_RUNS) + (list(BACKEND_RUNS_RICH) if sname in RICH_SPECS else [])
+        plan.append((sname, spec, False, rows))
+    gen_rows = _first_per_backend(BACKEND_RUNS) + [r for r in BACKEND_RUNS_RICH if r[0] in ('swift_client', 'obj_c_client')
+                                                    and not r[3]][::3]
+    for sname, spec in gen_backend_specs(ck, ck.scale(2, 40)):
+        plan.append((sname, spec, True, gen_rows))
+    return plan
+
+
 def suite_manifest_backends(ck):
-    top = os.path.realpath(core.scratch('stone-verif-c18-be-'))
-    specs = load_specs()
-    runs = BACKEND_RUNS
+    top = os.path.realpath(_scratch('stone-verif-c18-be-'))
     seen_backends = set()
     dirs_noted = set()
-    for sname, spec in specs:
+    for sname, spec, generated, runs in backend_plan(ck):
+        try:
+            from stone.frontend.frontend import specs_to_ir
+            specs_to_ir(spec)
+        except Exception as e:                              # noqa: a generated spec the frontend does not take
+            ck.note('spec %s not accepted by the frontend (%s); skipped' % (sname, type(e).__name__))
+            ck.stat('be.manifest_backends.spec_rejected')
+            continue
         for name, args, template, expect_refused in runs:
             case = {'suite': 'manifest_backends', 'backend': name, 'args': args, 'spec': sname}
+            if generated:
+                case['spec_files'] = [list(x) for x in spec]
             try:
                 real = run_backend_once(top, name, args, spec, template, False)
                 man = run_backend_once(top, name, args, spec, template, True)
@@ -1125,12 +1421,14 @@ def suite_manifest_backends(ck):
                 ck.stat('be.manifest_backends.skipped')
                 continue
             if real['status'] in ('backend-exception', 'usage') and man['status'] == real['status']:
-                ck.note('backend %s %s on %s ends with %s in both modes: %s' % (name, args[:2], sname, real['status'],
-                                                                                   real['detail']))
-                ck.stat('be.manifest_backends.crashed_both')
+                if not generated and real['status'] != 'usage':
+                    ck.note('backend %s %s on %s ends with %s in both modes: %s' % (name, args[:2], sname, real['status'],
+                                                                                       real['detail']))
+                ck.stat('be.manifest_backends.%s_both' % ('crashed' if real['status'] != 'usage' else 'usage_error'))
             seen_backends.add(name)
-            ck.case(('mbe', name, tuple(args), sname), bool(real['created']))
+            ck.case(('mbe', name, tuple(args), sname, json.dumps(spec) if generated else ''), bool(real['created']))
             ck.hist('be.manifest_backends.status', real['status'])
+            ck.hist('be.manifest_backends.spec_kind', 'generated' if generated else sname)
             ck.hist('be.manifest_backends.files', min(len(real['created']), 25))
             ck.stat('be.manifest_backends.dirs_created_by_manifest_runs', len(man['new_dirs']))
             if man['new_dirs'] and name not in dirs_noted:
@@ -1144,8 +1442,379 @@ def suite_manifest_backends(ck):
             ck.hist('be.manifest_backends.oracle', 'holds' if okay else 'fails')
             if name == 'python_types' and sname == 'basic' and len(args) == 2:
                 ck.sample({'backend': name, 'spec': sname, 'manifest': man['manifest'], 'created': real['created']})
+            if name == 'swift_client' and sname == 'reserved' and args[-2:] == ['-w', 'app']:
+                ck.sample({'backend': name, 'spec': sname, 'options': '-y <client args> -w app',
+                           'manifest': man['manifest'], 'created': real['created']})
     ck.stat('be.manifest_backends.backends', len(seen_backends))
     shutil.rmtree(os.path.join(top, 'l1'), ignore_errors=True)
+
+
+# ======================================================================================= manifest: through stone.cli.main
+
+TOY_BACKEND = '''import argparse
+import json
+import os
+
+from stone.backend import CodeBackend
+
+_parser = argparse.ArgumentParser(prog='toy-backend')
+_parser.add_argument('ops')
+_parser.add_argument('--src', default='')
+
+
+class ToyBackend(CodeBackend):
+    """executes a script of write / copy requests given on the command line (after the `--`)"""
+    cmdline_parser = _parser
+
+    def generate(self, api):
+        for op in json.loads(self.args.ops):
+            if op[0] == 'out':
+                with self.output_to_relative_path(op[1], mode='ab' if op[2] else 'wb'):
+                    self.emit_raw(op[3] + '\\n')
+            else:
+                dst = os.path.join(self.target_folder_path, op[3]) if op[3] != '' else self.target_folder_path
+                self.copy_to_path(os.path.join(self.args.src, op[1]), dst)
+'''
+
+
+
+def _spec_namespaces():
+    """{spec family: its namespaces (stone_cfg aside), those with routes first}"""
+    res = {}
+    for sname, files in load_specs():
+        nss = []
+        for _fn, text in files:
+            first = text.lstrip().split('\n', 1)[0].split()
+            if len(first) >= 2 and first[0] == 'namespace' and first[1] != 'stone_cfg':
+                nss.append((0 if '\nroute ' in text else 1, first[1]))
+        res[sname] = [n for _k, n in sorted(nss)]
+    return res
+
+
+CLI_SPEC = 'namespace toy\n\nstruct S\n    f String\n\nroute r (S, Void, Void)\n'
+
+
+class CliSandbox:
+    """<top>/l1/l2/l3/l4/proj/{out, specs/, toy.stoneg.py, src/} ; cwd of every run = proj"""
+
+    def __init__(self):
+        self.top = os.path.realpath(_scratch('stone-verif-c18-cli-'))
+        self.base = os.path.join(self.top, 'l1', 'l2', 'l3', 'l4')
+        self.proj = os.path.join(self.base, 'proj')
+        self.out = os.path.join(self.proj, 'out')
+        self.src = os.path.join(self.proj, 'src')
+        os.makedirs(self.src)
+        os.makedirs(os.path.join(self.proj, 'specs'))
+        for fn in ('src1.h', 'src2.m'):
+            with open(os.path.join(self.src, fn), 'w', encoding='utf-8') as fh:
+                fh.write('source of %s\n' % fn)
+        self.backend = os.path.join(self.proj, 'toy.stoneg.py')
+        with open(self.backend, 'w', encoding='utf-8') as fh:
+            fh.write(TOY_BACKEND)
+        self.toy_spec = os.path.join(self.proj, 'specs', 'toy.stone')
+        with open(self.toy_spec, 'w', encoding='utf-8') as fh:
+            fh.write(CLI_SPEC)
+        os.makedirs(os.path.join(self.base, 'Format'))
+        with open(os.path.join(self.base, 'Format', 'jazzy.json'), 'w') as fh:
+            json.dump({'custom_categories': []}, fh)
+        self.spec_paths = {}
+        for sname, files in load_specs():
+            d = os.path.join(self.proj, 'specs', sname)
+            os.makedirs(d)
+            paths = []
+            for fn, text in files:
+                with open(os.path.join(d, fn), 'w', encoding='utf-8') as fh:
+                    fh.write(text)
+                paths.append(os.path.join('specs', sname, fn))
+            self.spec_paths[sname] = paths
+
+    def fresh_out(self, kind='dir', extra=()):
+        """kind: 'dir' (empty folder), 'resources' (+ out/Resources), 'file' (out is a regular file), 'absent',
+        'under-file' (`afile/out` where afile is a regular file). Returns the output argument."""
+        for victim in (self.out, os.path.join(self.proj, 'afile')):
+            if os.path.isdir(victim) and not os.path.islink(victim):
+                shutil.rmtree(victim)
+            elif os.path.lexists(victim):
+                os.unlink(victim)
+        if kind == 'file':
+            with open(self.out, 'w') as fh:
+                fh.write('i am a file\n')
+        elif kind == 'under-file':
+            with open(os.path.join(self.proj, 'afile'), 'w') as fh:
+                fh.write('i am a file\n')
+            return 'afile/out'
+        elif kind != 'absent':
+            os.makedirs(self.out)
+            if kind == 'resources':
+                os.makedirs(os.path.join(self.out, 'Resources'))
+        for rel, text in extra:
+            os.makedirs(os.path.dirname(os.path.join(self.out, rel)), exist_ok=True)
+            with open(os.path.join(self.out, rel), 'w', encoding='utf-8') as fh:
+                fh.write(text)
+        return 'out'
+
+    def snapshot(self):
+        return _walk_files(self.top), _walk_dirs(self.top)
+
+    def run(self, argv):
+        """stone.cli.main in-process with cwd = proj. Returns dict(code, stdout, stderr, changed (absolute paths of
+        files created or modified), removed, new_dirs)."""
+        from stone import cli as stone_cli
+        before_files, before_dirs = self.snapshot()
+        old_argv, home = sys.argv, os.getcwd()
+        out, err = io.StringIO(), io.StringIO()
+        sys.argv = ['stone'] + list(argv)
+        os.chdir(self.proj)
+        try:
+            with contextlib.redirect_stdout(out), contextlib.redirect_stderr(err), time_limit(60.0):
+                stone_cli.main()
+            code = 0
+        except SystemExit as e:
+            code = 0 if e.code is None else (e.code if isinstance(e.code, int) else 1)
+        except Hang:
+            code = 'hang'
+        except Exception as e:                              # noqa: whatever escapes main is an outcome to compare
+            code = 'exception:%s' % type(e).__name__
+        finally:
+            sys.argv = old_argv
+            os.chdir(home)
+        after_files, after_dirs = self.snapshot()
+        changed = sorted(p for p, v in after_files.items() if p not in before_files or before_files[p] != v)
+        return {'code': code, 'stdout': out.getvalue(), 'stderr': err.getvalue(), 'changed': changed,
+                'removed': sorted(p for p in before_files if p not in after_files),
+                'new_dirs': sorted(after_dirs - before_dirs),
+                'listing': sorted(os.path.relpath(p, self.out) for p in after_files
+                                  if p.startswith(self.out + os.sep))}
+
+    def rel(self, paths):
+        return sorted(os.path.relpath(p, self.out) for p in paths)
+
+    def strip(self, x):
+        if isinstance(x, str):
+            return x.replace(self.top, '<scratch>')
+        if isinstance(x, list):
+            return [self.strip(v) for v in x]
+        if isinstance(x, dict):
+            return {k: self.strip(v) for k, v in x.items()}
+        return x
+
+
+def _cli_status(r):
+    if r['code'] == 0:
+        return 'ok'
+    if r['code'] == 1 and 'attempted to write outside its output root' in r['stderr']:
+        return 'refused'
+    if r['code'] == 1 and 'output manifest mismatch' in r['stderr']:
+        return 'mismatch'
+    if r['code'] == 1 and 'raised an exception' in r['stderr']:
+        return 'backend-exception'
+    return 'exit-%s' % (r['code'],)
+
+
+def _cli_manifest(r):
+    """the JSON list a `--output-manifest` run prints, or None"""
+    try:
+        data = json.loads(r['stdout'])
+    except ValueError:
+        return None
+    if isinstance(data, list) and all(isinstance(x, str) for x in data):
+        return data
+    return None
+
+
+def cli_case_run(sb, case):
+    """Carry out one recorded CLI case: the manifest run, the real run, the runs with an expected manifest.
+    Returns the list of (what, signature-kind, detail) the property fails with."""
+    problems = []
+    backend = case['backend']
+    bargs = [a.replace('<src>', sb.src) for a in case['backend_args']]
+    specs = sb.spec_paths[case['spec']] if case['spec'] != 'toy' else [os.path.relpath(sb.toy_spec, sb.proj)]
+    head = [sb.backend if backend == 'toy' else backend]
+    extra = [(rel, text) for rel, text in case.get('stale', [])]
+    tpl = [('t.template', TEMPLATE)] if case.get('template') else []
+    flags = list(case.get('flags', []))
+
+    def argv(outarg, more):
+        # options before, between and after the positionals: argparse takes them anywhere before the `--`
+        a = head + [outarg] + specs + flags + more
+        return a + (['--'] + bargs if (bargs or case.get('bare_dashes')) else [])
+
+    def note(kind, what, **detail):
+        problems.append((what, kind, sb.strip(detail)))
+
+    # ---- 1. manifest run
+    outarg = sb.fresh_out(case['out_kind'], extra + tpl)
+    man = sb.run(argv(outarg, ['--output-manifest']))
+    man_status = _cli_status(man)
+    manifest = _cli_manifest(man) if man_status == 'ok' else None
+    if man['changed']:
+        note('manifest-writes', '`--output-manifest` run created or changed files', files=man['changed'])
+    if man_status == 'ok' and manifest is None:
+        note('manifest-not-json', '`--output-manifest` did not print a JSON list of paths', stdout=man['stdout'][:300])
+    # ---- 2. real run
+    outarg = sb.fresh_out(case['out_kind'], extra + tpl)
+    real = sb.run(argv(outarg, []))
+    real_status = _cli_status(real)
+    outside = [p for p in real['changed'] if not p.startswith(sb.out + os.sep)]
+    outside_dirs = [d for d in real['new_dirs'] if not (d == sb.out or d.startswith(sb.out + os.sep))]
+    if outside or outside_dirs:
+        note('escape', 'a run through the command line wrote outside the output folder', files=outside, dirs=outside_dirs)
+    created = sb.rel([p for p in real['changed'] if p.startswith(sb.out + os.sep)])
+    info = {'manifest_status': man_status, 'real_status': real_status, 'manifest': manifest, 'created': created}
+    # (an I/O error of the real run - a request for the folder itself, a copy into a missing folder - has no
+    #  counterpart in a manifest run, which goes on to later requests: judged only when both end in ok / refused)
+    if {man_status, real_status} <= {'ok', 'refused'} and man_status != real_status:
+        note('status-differs', 'only one of manifest run / real run refuses the request (real: %s, manifest: %s)'
+             % (real_status, man_status), real_stderr=real['stderr'][-300:], manifest_stderr=man['stderr'][-300:])
+    elif man_status == 'ok' and real_status == 'ok' and manifest is not None:
+        if manifest != created:
+            note('manifest-differs', '`--output-manifest` lists other paths than the real run creates',
+                 manifest=manifest, created=created)
+    elif case['out_kind'] in ('file', 'under-file') and man_status != real_status:
+        note('status-differs', 'an unusable output path ends the two modes differently (real: %s, manifest: %s)'
+             % (real_status, man_status), real_stderr=real['stderr'][-300:], manifest_stderr=man['stderr'][-300:])
+    # ---- 3. runs with --expected-output-manifest (only where the first two agree and succeed)
+    if man_status == 'ok' and real_status == 'ok' and manifest is not None and manifest == created:
+        exp_path = os.path.join(sb.proj, 'expected.json')
+        for mode, perturb in case.get('expected_runs', []):
+            outarg = sb.fresh_out(case['out_kind'], extra + tpl)
+            if mode == 'real':
+                # what the folder holds afterwards: with --clean-build only what this run writes
+                keep = [] if '--clean-build' in flags else [rel for rel, _t in extra + tpl]
+                base = sorted(set(created) | set(keep))
+            else:
+                base = list(manifest)
+            exp = list(base)
+            if perturb == 'drop' and exp:
+                del exp[len(exp) // 2]
+            elif perturb in ('add', 'drop'):
+                exp.append('zz/not-generated.txt')
+                perturb = 'add'
+            elif perturb == 'shuffled':
+                exp = exp[::-1]
+            elif perturb == 'not-a-list':
+                exp = {'outputs': exp}                     # not "a JSON list of strings": never acceptable
+            with open(exp_path, 'w', encoding='utf-8') as fh:
+                json.dump(exp, fh)
+            more = ['--expected-output-manifest', 'expected.json'] + (['--output-manifest'] if mode == 'manifest' else [])
+            r = sb.run(argv(outarg, more))
+            st = _cli_status(r)
+            want_ok = perturb in ('same', 'shuffled')
+            if mode == 'manifest' and r['changed'] and not man['changed']:
+                note('manifest-writes', '`--output-manifest --expected-output-manifest` run created or changed files',
+                     files=[p for p in r['changed'] if p != exp_path])
+            if want_ok and st != 'ok':
+                note('expected-rejected', 'the expected manifest names exactly the generated paths, yet the %s run ends '
+                     'with %s' % (mode, st), expected=exp, stderr=r['stderr'][-300:], mode=mode, perturb=perturb)
+            elif not want_ok and st == 'ok':
+                note('expected-accepted', 'the expected manifest differs from the generated paths (%s), yet the %s run '
+                     'succeeds' % (perturb, mode), expected=exp, generated=base, mode=mode, perturb=perturb)
+            elif want_ok and mode == 'manifest' and _cli_manifest(r) != manifest:
+                note('manifest-differs', '`--output-manifest` prints something else when an expected manifest is given',
+                     printed=r['stdout'][:300], manifest=manifest)
+            elif want_ok and mode == 'real' and sb.rel([p for p in r['changed'] if p.startswith(sb.out + os.sep)]) != created:
+                note('manifest-differs', 'a real run with an expected manifest creates other files than one without',
+                     created=created, now=sb.rel([p for p in r['changed'] if p.startswith(sb.out + os.sep)]))
+        if os.path.exists(exp_path):
+            os.unlink(exp_path)
+    return problems, info
+
+
+def gen_cli_cases(ck):
+    cases = []
+    n_toy = ck.scale(36, 400)
+    for _ in range(n_toy):
+        ops = [op for op in gen_manifest_ops(ck.rng) if op[0] != 'swift']
+        ops = [[x.replace('@ABS@', '<base>') if isinstance(x, str) else x for x in op] for op in ops]
+        ops = [(['out', op[1], op[2], op[3]] if op[0] == 'out' else ['copy', op[1], '', op[3]]) for op in ops]
+        r = ck.rng.random()
+        out_kind = 'resources' if r < 0.7 else ('dir' if r < 0.85 else 'absent')
+        if ck.rng.random() < 0.6:
+            # mostly scripts that succeed (the runs with an expected manifest need a run that ends well)
+            def benign(op):
+                if op[0] == 'out':
+                    return op[1] not in ('', '.', 'Resources') and '..' not in op[1].split('/') and '<base>' not in op[1]
+                return op[3] in ('', 'copied.txt') + (('Resources', 'Resources/', 'Resources/renamed.h')
+                                                      if out_kind == 'resources' else ())
+            ops = [op for op in ops if benign(op)] or [['out', 'f1.txt', False, 'x {0}']]
+        flags, stale = [], []
+        if ck.rng.random() < 0.3:
+            flags.append('--clean-build')
+            stale = [['stale.txt', 'left over\n'], ['old/deep/stale.py', '# left over\n']][:ck.rng.randint(1, 2)]
+        if ck.rng.random() < 0.2:
+            flags.append('-v')
+        modes = [('real', 'same'), ('manifest', 'same'), ('manifest', ck.rng.choice(['drop', 'add'])),
+                 ('real', ck.rng.choice(['drop', 'add'])), ('real', 'shuffled'), ('manifest', 'shuffled')]
+        cases.append({'suite': 'manifest_cli', 'backend': 'toy', 'spec': 'toy', 'out_kind': out_kind, 'flags': flags,
+                      'stale': stale, 'backend_args': [json.dumps(ops, ensure_ascii=False), '--src', '<src>'],
+                      'expected_runs': ck.rng.sample(modes, 2)})
+    # an output path that is a regular file / lies under one: both modes must end the same way, nothing is written
+    for kind in ('file', 'under-file'):
+        cases.append({'suite': 'manifest_cli', 'backend': 'toy', 'spec': 'toy', 'out_kind': kind, 'flags': [],
+                      'stale': [], 'backend_args': [json.dumps([['out', 'f1.txt', False, 'x'], ['out', 'sub/f2.txt', False, 'y']]),
+                                                    '--src', '<src>'], 'expected_runs': []})
+        cases.append({'suite': 'manifest_cli', 'backend': 'python_types', 'spec': 'basic', 'out_kind': kind, 'flags': [],
+                      'stale': [], 'backend_args': ['-p', 'pk'], 'expected_runs': []})
+    # every built-in backend once (thorough: every ordinary option set), spec chosen at random
+    names = [s for s, _f in load_specs()]
+    CLI_SPEC_NAMESPACES = _spec_namespaces()
+    rows = [r for r in BACKEND_RUNS + BACKEND_RUNS_RICH if not r[3] and r[1] not in ([], ['--no-such-option', 'x'])]
+    if ck.tier != 'thorough':
+        picked, rest = {}, []
+        for row in rows:
+            picked.setdefault(row[0], []).append(row)
+        rows = [ck.rng.choice(v) for _k, v in sorted(picked.items())]
+    for name, args, template, _refused in rows:
+        spec = ck.rng.choice(names)
+        flags, stale = [], []
+        if ck.rng.random() < 0.3:
+            flags.append('--clean-build')
+            stale = [['stale.txt', 'left over\n']]
+        modes = [('real', 'same'), ('manifest', 'same'), ('manifest', 'drop'), ('real', 'drop'), ('real', 'add'),
+                 ('manifest', 'add'), ('manifest', 'not-a-list')]
+        if template and '--clean-build' in flags:
+            flags, stale = [], []               # the template lives in the output folder: a clean build removes it
+        # stone's own selection options change what the backends write; the two modes must follow alike
+        r = ck.rng.random()
+        if r < 0.25:
+            flags += ['-b', CLI_SPEC_NAMESPACES[spec][0]]
+        elif r < 0.4:
+            flags += ['-w', CLI_SPEC_NAMESPACES[spec][-1]]
+        elif r < 0.5:
+            flags += ['-a', ':all', '-f', 'auth!="team" and style="rpc"']
+        cases.append({'suite': 'manifest_cli', 'backend': name, 'spec': spec, 'out_kind': 'dir', 'flags': flags,
+                      'stale': stale, 'template': template, 'backend_args': list(args),
+                      'expected_runs': ck.rng.sample(modes, 2)})
+    # no backend arguments at all, with and without a bare `--`
+    for bare in (False, True):
+        cases.append({'suite': 'manifest_cli', 'backend': 'swift_types', 'spec': 'multi', 'out_kind': 'dir', 'flags': [],
+                      'stale': [], 'backend_args': [], 'bare_dashes': bare, 'expected_runs': [('real', 'same')]})
+    return cases
+
+
+def suite_manifest_cli(ck):
+    """The same property one level up: `stone <backend> out specs... [--output-manifest] [--expected-output-manifest F]
+    [--clean-build] -- <backend args>` through stone.cli.main (in-process), for a toy backend that executes random
+    write / copy scripts and for the built-in backends. Oracle only."""
+    sb = CliSandbox()
+    for case in gen_cli_cases(ck):
+        case = dict(case)
+        case['backend_args'] = [a.replace('<base>', sb.base) if isinstance(a, str) else a for a in case['backend_args']]
+        problems, info = cli_case_run(sb, case)
+        ck.case(('mcli', json.dumps(sb.strip(case), sort_keys=True)), bool(info['created']))
+        ck.hist('be.manifest_cli.backend', case['backend'])
+        ck.hist('be.manifest_cli.status', '%s/%s' % (info['real_status'], info['manifest_status']))
+        ck.hist('be.manifest_cli.flags', ' '.join(case['flags']) or '-')
+        for mode, perturb in case.get('expected_runs', []):
+            ck.hist('be.manifest_cli.expected', '%s/%s' % (mode, perturb))
+        ck.agree('be.manifest_cli')
+        for what, kind, detail in problems:
+            ck.failing_input(what, {'site': 'cli-manifest', 'kind': kind,
+                                    'backend': 'toy' if case['backend'] == 'toy' else 'built-in'},
+                             dict(sb.strip(case), detail=detail, observed=sb.strip(info)))
+        if case['backend'] == 'toy' and info['created'] and len([x for x in ck.samples if 'cli_ops' in x]) < 1:
+            ck.sample({'cli_ops': case['backend_args'][0], 'flags': case['flags'], 'manifest': info['manifest'],
+                       'created': info['created']})
 
 
 # ======================================================================================= replay
@@ -1200,9 +1869,20 @@ def replay_case(ck, rec):
         try:
             with time_limit(2.0):
                 b.emit_wrapped_text(case['text'], prefix=case['prefix'], initial_prefix=case['ini'],
-                                    subsequent_prefix=case['sub'], width=case['width'])
-            wrap_oracle(ck, {k: case[k] for k in ('text', 'tabs', 'depth', 'indent', 'prefix', 'ini', 'sub', 'width')},
-                        b.output_buffer_to_string())
+                                    subsequent_prefix=case['sub'], width=case['width'],
+                                    break_long_words=bool(case.get('blw')), break_on_hyphens=bool(case.get('boh')))
+            got = b.output_buffer_to_string()
+            small = {k: case.get(k) for k in ('text', 'tabs', 'depth', 'indent', 'prefix', 'ini', 'sub', 'width',
+                                              'blw', 'boh')}
+            if wrap_oracle(ck, small, got) and (case.get('blw') or case.get('boh')):
+                want = textwrap.fill(case['text'], width=case['width'],
+                                     initial_indent=case['indent'] + case['prefix'] + case['ini'],
+                                     subsequent_indent=case['indent'] + case['prefix'] + case['sub'],
+                                     break_long_words=bool(case.get('blw')),
+                                     break_on_hyphens=bool(case.get('boh'))) + '\n'
+                if got != want:
+                    ck.failing_input('emit_wrapped_text does not pass its wrapping flags on',
+                                     {'site': 'emit_wrapped_text', 'kind': 'flag-ignored'}, dict(small, suite='wrap'))
         except Hang:
             ck.failing_input('emit_wrapped_text does not terminate', {'site': 'emit_wrapped_text', 'kind': 'hang'}, case)
     elif suite == 'path' and case.get('writer') in ('output_to_relative_path', 'swift_writer', 'copy_to_path'):
@@ -1227,18 +1907,40 @@ def replay_case(ck, rec):
             except OSError:
                 outcome = 'ioerror'
             nf, nd = sb.diff()
-            bad = [x for x in nf + nd if not sb.inside_out(x)]
+            if case.get('combo') == 'fresh-root':
+                fresh = os.path.join(sb.w, 'fresh')
+                bad = [x for x in nf + nd if not (x == fresh or x.startswith(fresh + os.sep))]
+                nd = [d for d in nd if d != fresh]
+            else:
+                bad = [x for x in nf + nd if not sb.inside_out(x)]
             if bad or (outcome == 'refused' and (nf or nd)):
                 ck.failing_input('replayed: %s' % rec.get('what'), rec.get('signature', {}), case)
         finally:
             os.chdir(home)
+    elif suite == 'manifest_cli':
+        sb = CliSandbox()
+        c = {k: v for k, v in case.items() if k not in ('detail', 'observed')}
+        c['backend_args'] = [a.replace('<scratch>', sb.top).replace('<base>', sb.base) for a in c['backend_args']]
+        problems, _info = cli_case_run(sb, c)
+        for what, kind, detail in problems:
+            ck.failing_input(what, {'site': 'cli-manifest', 'kind': kind,
+                                    'backend': 'toy' if c['backend'] == 'toy' else 'built-in'}, dict(case, detail=detail))
+    elif suite == 'filter_none':
+        b = Spaces('/nonexistent', [])
+        for v in (0, '', False, [], {}, 0.0, (), 'x', None):
+            d = {'k': v, 'n': None}
+            got = b.filter_out_none_valued_keys(d)
+            if got is d or list(got.items()) != ([('k', v)] if v is not None else []) or len(d) != 2:
+                ck.failing_input('filter_out_none_valued_keys does not return a new dict with exactly the non-None entries',
+                                 {'site': 'filter_out_none_valued_keys', 'kind': 'entries'}, case)
+                break
     elif suite == 'manifest_backends':
-        top = os.path.realpath(core.scratch('stone-verif-c18-replay-'))
-        spec = dict(load_specs())[case['spec']]
+        top = os.path.realpath(_scratch('stone-verif-c18-replay-'))
+        spec = ([tuple(x) for x in case['spec_files']] if case.get('spec_files') else dict(load_specs())[case['spec']])
         template = any(a == 't.template' for a in case['args'])
         real = run_backend_once(top, case['backend'], case['args'], spec, template, False)
         man = run_backend_once(top, case['backend'], case['args'], spec, template, True)
-        backend_oracle(ck, {k: case[k] for k in ('suite', 'backend', 'args', 'spec')}, real, man)
+        backend_oracle(ck, {k: case[k] for k in ('suite', 'backend', 'args', 'spec', 'spec_files') if k in case}, real, man)
     else:
         return False
     return True
